@@ -232,12 +232,14 @@ package exec
 
 //@ func selectChild(nodeSet) (r)
 //@   property C01 C03 C13 C15
-//@   uses axes
+//@   uses axes selseq
 //@   requires nodes(nodeSet)
 //@   ensures isVSet(r) && nodes(vset(r)) && sasc(vset(r))                                                          @ascending
 //@   ensures len(vset(r)) > 0 ==> fresh(vset(r))                                                                   @fresh
 //@   ensures forall n Cursor :: mem(vset(r), n) ==> exists k Int :: 0 <= k && k < len(nodeSet) && isChild(nodeSet[k], n)   @only-children
 //@   ensures forall k Int, n Cursor :: 0 <= k && k < len(nodeSet) && isChild(nodeSet[k], n) ==> mem(vset(r), n)            @all-children
+//@   ensures sascq(seqOf(vset(r))) && qnodes(seqOf(vset(r)))                                                      @abstract-order
+//@   ensures sameset(seqOf(vset(r)), selSeq(0, seqOf(nodeSet)))                                                     @abstract-axis-set
 //@   loop 0
 //@     invariant 0 - 1 <= #k && #k < len(nodeSet) || (len(nodeSet) == 0 && #k == 0 - 1)
 //@     invariant fresh(result) && nodes(result) && 0 <= len(result) && len(result) <= cap(result)
@@ -253,12 +255,14 @@ package exec
 
 //@ func selectAttributes(nodeSet) (r)
 //@   property C01 C03 C13 C15
-//@   uses axes
+//@   uses axes selseq
 //@   requires nodes(nodeSet)
 //@   ensures isVSet(r) && nodes(vset(r)) && sasc(vset(r))                                                          @ascending
 //@   ensures len(vset(r)) > 0 ==> fresh(vset(r))                                                                   @fresh
 //@   ensures forall n Cursor :: mem(vset(r), n) ==> exists k Int :: 0 <= k && k < len(nodeSet) && isAttrOf(nodeSet[k], n)   @only-attributes
 //@   ensures forall k Int, n Cursor :: 0 <= k && k < len(nodeSet) && isAttrOf(nodeSet[k], n) ==> mem(vset(r), n)            @all-attributes
+//@   ensures sascq(seqOf(vset(r))) && qnodes(seqOf(vset(r)))                                                      @abstract-order
+//@   ensures sameset(seqOf(vset(r)), selSeq(1, seqOf(nodeSet)))                                                     @abstract-axis-set
 //@   loop 0
 //@     invariant 0 - 1 <= #k && #k < len(nodeSet) || (len(nodeSet) == 0 && #k == 0 - 1)
 //@     invariant fresh(result) && nodes(result) && 0 <= len(result) && len(result) <= cap(result)
@@ -268,12 +272,14 @@ package exec
 
 //@ func selectNamespace(nodeSet) (r)
 //@   property C01 C03 C13 C15
-//@   uses axes
+//@   uses axes selseq
 //@   requires nodes(nodeSet)
 //@   ensures isVSet(r) && nodes(vset(r)) && sasc(vset(r))                                                          @ascending
 //@   ensures len(vset(r)) > 0 ==> fresh(vset(r))                                                                   @fresh
 //@   ensures forall n Cursor :: mem(vset(r), n) ==> exists k Int :: 0 <= k && k < len(nodeSet) && isNsOf(nodeSet[k], n)   @only-namespaces
 //@   ensures forall k Int, n Cursor :: 0 <= k && k < len(nodeSet) && isNsOf(nodeSet[k], n) ==> mem(vset(r), n)            @all-namespaces
+//@   ensures sascq(seqOf(vset(r))) && qnodes(seqOf(vset(r)))                                                      @abstract-order
+//@   ensures sameset(seqOf(vset(r)), selSeq(8, seqOf(nodeSet)))                                                     @abstract-axis-set
 //@   loop 0
 //@     invariant 0 - 1 <= #k && #k < len(nodeSet) || (len(nodeSet) == 0 && #k == 0 - 1)
 //@     invariant fresh(result) && nodes(result) && 0 <= len(result) && len(result) <= cap(result)
@@ -283,12 +289,14 @@ package exec
 
 //@ func selectParent(nodeSet) (r)
 //@   property C01 C03 C13 C15
-//@   uses axes
+//@   uses axes selseq
 //@   requires nodes(nodeSet)
 //@   ensures isVSet(r) && nodes(vset(r)) && sasc(vset(r))                                                          @ascending
 //@   ensures len(vset(r)) > 0 ==> fresh(vset(r))                                                                   @fresh
 //@   ensures forall n Cursor :: mem(vset(r), n) ==> exists k Int :: 0 <= k && k < len(nodeSet) && isParentOf(nodeSet[k], n)   @only-parents
 //@   ensures forall k Int, n Cursor :: 0 <= k && k < len(nodeSet) && isParentOf(nodeSet[k], n) ==> mem(vset(r), n)            @all-parents
+//@   ensures sascq(seqOf(vset(r))) && qnodes(seqOf(vset(r)))                                                      @abstract-order
+//@   ensures sameset(seqOf(vset(r)), selSeq(9, seqOf(nodeSet)))                                                     @abstract-axis-set
 //@   loop 0
 //@     invariant 0 - 1 <= #k && #k < len(nodeSet) || (len(nodeSet) == 0 && #k == 0 - 1)
 //@     invariant fresh(result) && nodes(result) && 0 <= len(result) && len(result) <= cap(result)
@@ -308,12 +316,14 @@ package exec
 
 //@ func selectAncestor(nodeSet) (r)
 //@   property C01 C03 C13 C15
-//@   uses axes treelemmas
+//@   uses axes treelemmas selseq
 //@   requires nodes(nodeSet)
 //@   ensures isVSet(r) && nodes(vset(r)) && sdesc(vset(r))                                                         @descending
 //@   ensures len(vset(r)) > 0 ==> fresh(vset(r))                                                                   @fresh
 //@   ensures forall n Cursor :: mem(vset(r), n) ==> exists k Int :: 0 <= k && k < len(nodeSet) && isAnc(nodeSet[k], n)   @only-ancestors
 //@   ensures forall k Int, n Cursor :: 0 <= k && k < len(nodeSet) && isAnc(nodeSet[k], n) ==> mem(vset(r), n)            @all-ancestors
+//@   ensures sdescq(seqOf(vset(r))) && qnodes(seqOf(vset(r)))                                                      @abstract-order
+//@   ensures sameset(seqOf(vset(r)), selSeq(2, seqOf(nodeSet)))                                                     @abstract-axis-set
 //@   loop 0
 //@     invariant 0 - 1 <= #k && #k < len(nodeSet) || (len(nodeSet) == 0 && #k == 0 - 1)
 //@     invariant fresh(result) && nodes(result) && 0 <= len(result) && len(result) <= cap(result)
@@ -323,12 +333,14 @@ package exec
 
 //@ func selectAncestorOrSelf(nodeSet) (r)
 //@   property C01 C03 C13 C15
-//@   uses axes treelemmas
+//@   uses axes treelemmas selseq
 //@   requires nodes(nodeSet)
 //@   ensures isVSet(r) && nodes(vset(r)) && sdesc(vset(r))                                                         @descending
 //@   ensures len(vset(r)) > 0 ==> fresh(vset(r))                                                                   @fresh
 //@   ensures forall n Cursor :: mem(vset(r), n) ==> exists k Int :: 0 <= k && k < len(nodeSet) && isAncOrSelf(nodeSet[k], n)   @only-ancestors-or-self
 //@   ensures forall k Int, n Cursor :: 0 <= k && k < len(nodeSet) && isAncOrSelf(nodeSet[k], n) ==> mem(vset(r), n)            @all-ancestors-or-self
+//@   ensures sdescq(seqOf(vset(r))) && qnodes(seqOf(vset(r)))                                                      @abstract-order
+//@   ensures sameset(seqOf(vset(r)), selSeq(3, seqOf(nodeSet)))                                                     @abstract-axis-set
 //@   loop 0
 //@     invariant 0 - 1 <= #k && #k < len(nodeSet) || (len(nodeSet) == 0 && #k == 0 - 1)
 //@     invariant fresh(result) && nodes(result) && 0 <= len(result) && len(result) <= cap(result)
@@ -354,12 +366,14 @@ package exec
 
 //@ func selectDescendant(nodeSet) (r)
 //@   property C01 C03 C13 C15
-//@   uses axes treelemmas
+//@   uses axes treelemmas selseq
 //@   requires nodes(nodeSet)
 //@   ensures isVSet(r) && nodes(vset(r)) && sasc(vset(r))                                                          @ascending
 //@   ensures len(vset(r)) > 0 ==> fresh(vset(r))                                                                   @fresh
 //@   ensures forall n Cursor :: mem(vset(r), n) ==> exists k Int :: 0 <= k && k < len(nodeSet) && isDesc(nodeSet[k], n)   @only-descendants
 //@   ensures forall k Int, n Cursor :: 0 <= k && k < len(nodeSet) && isDesc(nodeSet[k], n) ==> mem(vset(r), n)            @all-descendants
+//@   ensures sascq(seqOf(vset(r))) && qnodes(seqOf(vset(r)))                                                      @abstract-order
+//@   ensures sameset(seqOf(vset(r)), selSeq(4, seqOf(nodeSet)))                                                     @abstract-axis-set
 //@   loop 0
 //@     invariant 0 - 1 <= #k && #k < len(nodeSet) || (len(nodeSet) == 0 && #k == 0 - 1)
 //@     invariant fresh(result) && nodes(result) && 0 <= len(result) && len(result) <= cap(result)
@@ -369,12 +383,14 @@ package exec
 
 //@ func selectDescendantOrSelf(nodeSet) (r)
 //@   property C01 C03 C13 C15
-//@   uses axes treelemmas
+//@   uses axes treelemmas selseq
 //@   requires nodes(nodeSet)
 //@   ensures isVSet(r) && nodes(vset(r)) && sasc(vset(r))                                                          @ascending
 //@   ensures len(vset(r)) > 0 ==> fresh(vset(r))                                                                   @fresh
 //@   ensures forall n Cursor :: mem(vset(r), n) ==> exists k Int :: 0 <= k && k < len(nodeSet) && isDescOrSelf(nodeSet[k], n)   @only-descendants-or-self
 //@   ensures forall k Int, n Cursor :: 0 <= k && k < len(nodeSet) && isDescOrSelf(nodeSet[k], n) ==> mem(vset(r), n)            @all-descendants-or-self
+//@   ensures sascq(seqOf(vset(r))) && qnodes(seqOf(vset(r)))                                                      @abstract-order
+//@   ensures sameset(seqOf(vset(r)), selSeq(5, seqOf(nodeSet)))                                                     @abstract-axis-set
 //@   loop 0
 //@     invariant 0 - 1 <= #k && #k < len(nodeSet) || (len(nodeSet) == 0 && #k == 0 - 1)
 //@     invariant fresh(result) && nodes(result) && 0 <= len(result) && len(result) <= cap(result)
@@ -398,12 +414,14 @@ package exec
 
 //@ func selectFollowingSibling(nodeSet) (r)
 //@   property C01 C03 C13 C15
-//@   uses axes treelemmas
+//@   uses axes treelemmas selseq
 //@   requires nodes(nodeSet)
 //@   ensures isVSet(r) && nodes(vset(r)) && sasc(vset(r))                                                          @ascending
 //@   ensures len(vset(r)) > 0 ==> fresh(vset(r))                                                                   @fresh
 //@   ensures forall n Cursor :: mem(vset(r), n) ==> exists k Int :: 0 <= k && k < len(nodeSet) && isFollSib(nodeSet[k], n)   @only-following-siblings
 //@   ensures forall k Int, n Cursor :: 0 <= k && k < len(nodeSet) && isFollSib(nodeSet[k], n) ==> mem(vset(r), n)            @all-following-siblings
+//@   ensures sascq(seqOf(vset(r))) && qnodes(seqOf(vset(r)))                                                      @abstract-order
+//@   ensures sameset(seqOf(vset(r)), selSeq(7, seqOf(nodeSet)))                                                     @abstract-axis-set
 //@   loop 0
 //@     invariant 0 - 1 <= #k && #k < len(nodeSet) || (len(nodeSet) == 0 && #k == 0 - 1)
 //@     invariant fresh(result) && nodes(result) && 0 <= len(result) && len(result) <= cap(result)
@@ -427,12 +445,14 @@ package exec
 
 //@ func selectPrecedingSibling(nodeSet) (r)
 //@   property C01 C03 C13 C15
-//@   uses axes treelemmas
+//@   uses axes treelemmas selseq
 //@   requires nodes(nodeSet)
 //@   ensures isVSet(r) && nodes(vset(r)) && sdesc(vset(r))                                                         @descending
 //@   ensures len(vset(r)) > 0 ==> fresh(vset(r))                                                                   @fresh
 //@   ensures forall n Cursor :: mem(vset(r), n) ==> exists k Int :: 0 <= k && k < len(nodeSet) && isPrecSib(nodeSet[k], n)   @only-preceding-siblings
 //@   ensures forall k Int, n Cursor :: 0 <= k && k < len(nodeSet) && isPrecSib(nodeSet[k], n) ==> mem(vset(r), n)            @all-preceding-siblings
+//@   ensures sdescq(seqOf(vset(r))) && qnodes(seqOf(vset(r)))                                                      @abstract-order
+//@   ensures sameset(seqOf(vset(r)), selSeq(11, seqOf(nodeSet)))                                                     @abstract-axis-set
 //@   loop 0
 //@     invariant 0 - 1 <= #k && #k < len(nodeSet) || (len(nodeSet) == 0 && #k == 0 - 1)
 //@     invariant fresh(result) && nodes(result) && 0 <= len(result) && len(result) <= cap(result)
@@ -460,12 +480,14 @@ package exec
 
 //@ func selectFollowing(nodeSet) (r)
 //@   property C01 C03 C13 C15
-//@   uses axes treelemmas
+//@   uses axes treelemmas selseq
 //@   requires nodes(nodeSet)
 //@   ensures isVSet(r) && nodes(vset(r)) && sasc(vset(r))                                                          @ascending
 //@   ensures len(vset(r)) > 0 ==> fresh(vset(r))                                                                   @fresh
 //@   ensures forall n Cursor :: mem(vset(r), n) ==> exists k Int :: 0 <= k && k < len(nodeSet) && isFoll(nodeSet[k], n)   @only-following
 //@   ensures forall k Int, n Cursor :: 0 <= k && k < len(nodeSet) && isFoll(nodeSet[k], n) ==> mem(vset(r), n)            @all-following
+//@   ensures sascq(seqOf(vset(r))) && qnodes(seqOf(vset(r)))                                                      @abstract-order
+//@   ensures sameset(seqOf(vset(r)), selSeq(6, seqOf(nodeSet)))                                                     @abstract-axis-set
 //@   loop 0
 //@     invariant 0 - 1 <= #k && #k < len(nodeSet) || (len(nodeSet) == 0 && #k == 0 - 1)
 //@     invariant fresh(result) && nodes(result) && 0 <= len(result) && len(result) <= cap(result)
@@ -493,12 +515,14 @@ package exec
 
 //@ func selectPreceding(nodeSet) (r)
 //@   property C01 C03 C13 C15
-//@   uses axes treelemmas
+//@   uses axes treelemmas selseq
 //@   requires nodes(nodeSet)
 //@   ensures isVSet(r) && nodes(vset(r)) && sdesc(vset(r))                                                         @descending
 //@   ensures len(vset(r)) > 0 ==> fresh(vset(r))                                                                   @fresh
 //@   ensures forall n Cursor :: mem(vset(r), n) ==> exists k Int :: 0 <= k && k < len(nodeSet) && isPrec(nodeSet[k], n)   @only-preceding
 //@   ensures forall k Int, n Cursor :: 0 <= k && k < len(nodeSet) && isPrec(nodeSet[k], n) ==> mem(vset(r), n)            @all-preceding
+//@   ensures sdescq(seqOf(vset(r))) && qnodes(seqOf(vset(r)))                                                      @abstract-order
+//@   ensures sameset(seqOf(vset(r)), selSeq(10, seqOf(nodeSet)))                                                     @abstract-axis-set
 //@   loop 0
 //@     invariant 0 - 1 <= #k && #k < len(nodeSet) || (len(nodeSet) == 0 && #k == 0 - 1)
 //@     invariant fresh(result) && nodes(result) && 0 <= len(result) && len(result) <= cap(result)
@@ -802,10 +826,22 @@ package exec
 // must leave exactly that value in context.result and report an error exactly when Sem says so.
 
 //@ macro B = deref(expr.BSR)
-//@ macro CTX = expr.lex, context.root, old(absv(context.result)), old(context.contextPosition), context.ContextSettings
-//@ macro HPRE = context != nil && expr != nil && expr.BSR != nil && wf(expr.BSR) && resok(context.result) && wf(context.result)
+//@ macro CTX = expr.lex, context.root, old(absv(context.result)), old(context.contextPosition), old(context.contextSize), context.ContextSettings
+//@ macro HPRE = context != nil && expr != nil && expr.BSR != nil && wf(expr.BSR) && resok(context.result) && wf(context.result) && context.root != nil
 //@ macro HPOSTE = (err != nil) == semerr($B$, $CTX$)
-//@ macro HPOSTV = err == nil ==> absv(context.result) == sem($B$, $CTX$) && resok(context.result) && wf(context.result)
+//@ macro SEM0 = sem(ntchild($B$, 0), $CTX$)
+//@ macro SEM1 = sem(ntchild($B$, 1), $CTX$)
+//@ macro ERR0 = semerr(ntchild($B$, 0), $CTX$)
+//@ macro ERR1 = semerr(ntchild($B$, 1), $CTX$)
+//@ macro SEMV = sem($B$, $CTX$)
+//@ macro RSEQ = aset(absv(context.result))
+//@ macro HS1 = err == nil ==> isASet(absv(context.result)) && isASet($SEMV$)
+//@ macro HS2A = err == nil ==> sascq($RSEQ$)
+//@ macro HS3A = err == nil ==> sascq(aset($SEMV$))
+//@ macro HS2D = err == nil ==> sdescq($RSEQ$)
+//@ macro HS3D = err == nil ==> sdescq(aset($SEMV$))
+//@ macro HS4 = err == nil ==> sameset($RSEQ$, aset($SEMV$))
+//@ macro HPOSTV = err == nil ==> aeq(absv(context.result), sem($B$, $CTX$)) && resok(context.result) && wf(context.result)
 
 //@ extern slot.Label.Slot(l) (r)
 //@   pure
@@ -832,7 +868,7 @@ package exec
 //@ func exprContext.copy(e) (r)
 //@   property C13 C15 C18 C02
 //@   requires e != nil
-//@   ensures r.root == e.root && r.result == e.result && r.contextPosition == e.contextPosition && r.ContextSettings == e.ContextSettings
+//@   ensures r.root == e.root && r.result == e.result && r.contextPosition == e.contextPosition && r.contextSize == e.contextSize && r.ContextSettings == e.ContextSettings
 
 //@ func execContext(context, expr) (err)
 //@   property C08 C13 C15 C18 C02 C05 C06
@@ -845,25 +881,22 @@ package exec
 //@ func execChildren(context, expr) (err)
 //@   property C08 C13 C15 C18
 //@   uses sem
-//@   requires $HPRE$ && handlerFn(nt($B$)) == nil
+//@   requires $HPRE$
 //@   modifies context.result
-//@   ensures $HPOSTE$                                                         @error-iff-specified
-//@   ensures $HPOSTV$                                                         @value-is-Sem
+//@   ensures nntc($B$) >= 1 ==> (err != nil) == $ERR0$                                                        @error-of-first-child
+//@   ensures nntc($B$) >= 1 && err == nil ==> aeq(absv(context.result), $SEM0$) && resok(context.result) && wf(context.result)   @value-of-first-child
+//@   ensures nntc($B$) == 0 ==> err == nil && context.result == old(context.result)                            @no-child-no-change
 //@   loop 0
 //@     invariant #k == 0 - 1
 //@     decreases nntc($B$) - #k
 
-//@ macro SEM0 = sem(ntchild($B$, 0), $CTX$)
-//@ macro SEM1 = sem(ntchild($B$, 1), $CTX$)
-//@ macro ERR0 = semerr(ntchild($B$, 0), $CTX$)
-//@ macro ERR1 = semerr(ntchild($B$, 1), $CTX$)
 
 //@ func leftOnlyIndependentResult(context, expr) (r, err)
 //@   property C02 C06 C08 C13 C15
 //@   uses sem
 //@   requires $HPRE$ && nntc($B$) == 1
 //@   ensures (err != nil) == $ERR0$                                                       @error-iff-child-fails
-//@   ensures err == nil ==> absv(r) == $SEM0$ && resok(r) && wf(r)                        @value-of-the-child-in-a-copy-of-the-context
+//@   ensures err == nil ==> aeq(absv(r), $SEM0$) && resok(r) && wf(r)                     @value-of-the-child-in-a-copy-of-the-context
 //@   loop 0
 //@     invariant 0 - 1 <= #k && #k < nntc($B$)
 //@     invariant #k == 0 - 1 ==> execNext == nil
@@ -875,8 +908,8 @@ package exec
 //@   uses sem
 //@   requires $HPRE$ && nntc($B$) == 2
 //@   ensures (err != nil) == ($ERR0$ || $ERR1$)                                           @error-iff-an-operand-fails
-//@   ensures err == nil ==> absv(l) == $SEM0$ && resok(l) && wf(l)                        @left-operand-is-child-0
-//@   ensures err == nil ==> absv(r) == $SEM1$ && resok(r) && wf(r)                        @right-operand-is-child-1
+//@   ensures err == nil ==> aeq(absv(l), $SEM0$) && resok(l) && wf(l)                     @left-operand-is-child-0
+//@   ensures err == nil ==> aeq(absv(r), $SEM1$) && resok(r) && wf(r)                     @right-operand-is-child-1
 //@   loop 0
 //@     invariant 0 - 1 <= #k && #k < nntc($B$)
 //@     invariant len(children) == #k + 1 && len(children) <= cap(children) && fresh(children)
@@ -1206,4 +1239,66 @@ package exec
 //@   requires $HPRE$ && nt($B$) == NT_AndExprAnd
 //@   modifies context.result
 //@   ensures $HPOSTE$                                                         @error-iff-specified
+//@   ensures $HPOSTV$                                                         @value-is-Sem
+
+
+// ---------- location paths (exec/contextfn_paths.go) ----------
+
+//@ func execAbsoluteLocationPathOnly(context, expr) (err)
+//@   property C01 C13 C15
+//@   uses sem
+//@   requires $HPRE$ && nt($B$) == NT_AbsoluteLocationPathOnly
+//@   modifies context.result
+//@   ensures $HPOSTE$                                                         @error-iff-specified
+//@   ensures $SEMV$ == ASet(qsingle(context.root))                            @spec-unfolded
+//@   ensures $HS1$                                                            @node-set
+//@   ensures $HS2A$                                                           @result-ascending
+//@   ensures $HS3A$                                                           @spec-ascending
+//@   ensures $HS4$                                                            @same-members
+//@   ensures $HPOSTV$                                                         @value-is-Sem
+
+//@ func execAbsoluteLocationPathWithRelative(context, expr) (err)
+//@   property C01 C13 C15
+//@   uses sem
+//@   requires $HPRE$ && nt($B$) == NT_AbsoluteLocationPathWithRelative
+//@   modifies context.result
+//@   hint execChildren#1 aeq(absv(context.result), ASet(qsingle(context.root)))
+//@   ensures $HPOSTE$                                                         @error-iff-specified
+//@   ensures $HPOSTV$                                                         @value-is-Sem
+
+//@ func execAxisName(context, expr) (err)
+//@   property C01 C03 C13 C15
+//@   uses sem treelemmas
+//@   requires $HPRE$ && nt($B$) == NT_AxisName
+//@   modifies context.result
+//@   ensures $HPOSTE$                                                         @error-iff-specified
+//@   ensures $HS1$                                                            @node-set
+//@   ensures err == nil && axisRev(axisCode(btext($B$, expr.lex))) ==> sdescq($RSEQ$) && sdescq(aset($SEMV$))                                        @reverse-axes-descending
+//@   ensures err == nil && !axisRev(axisCode(btext($B$, expr.lex))) && axisCode(btext($B$, expr.lex)) != 12 ==> sascq($RSEQ$) && sascq(aset($SEMV$))   @forward-axes-ascending
+//@   ensures $HS4$                                                            @same-members
+//@   ensures err == nil && axisCode(btext($B$, expr.lex)) == 12 ==> absv(context.result) == $SEMV$                                                  @self-axis-is-identity
+//@   ensures $HPOSTV$                                                         @value-is-Sem
+
+//@ func execAbbreviatedStepParent(context, expr) (err)
+//@   property C01 C03 C13 C15
+//@   uses sem
+//@   requires $HPRE$ && nt($B$) == NT_AbbreviatedStepParent
+//@   modifies context.result
+//@   ensures $HPOSTE$                                                         @error-iff-specified
+//@   ensures $HS1$                                                            @node-set
+//@   ensures $HS2A$                                                           @result-ascending
+//@   ensures $HS3A$                                                           @spec-ascending
+//@   ensures $HS4$                                                            @same-members
+//@   ensures $HPOSTV$                                                         @value-is-Sem
+
+//@ func execAbbreviatedAxisSpecifier(context, expr) (err)
+//@   property C01 C03 C13 C15
+//@   uses sem
+//@   requires $HPRE$ && nt($B$) == NT_AbbreviatedAxisSpecifier
+//@   modifies context.result
+//@   ensures $HPOSTE$                                                         @error-iff-specified
+//@   ensures $HS1$                                                            @node-set
+//@   ensures $HS2A$                                                           @result-ascending
+//@   ensures $HS3A$                                                           @spec-ascending
+//@   ensures $HS4$                                                            @same-members
 //@   ensures $HPOSTV$                                                         @value-is-Sem
